@@ -125,42 +125,42 @@ fn small_int() -> f64 {
   i as f64
 }
 
+fn fold(vals: &[f64]) -> StatsState {
+  let mut s = StatsState::default();
+  let mut i = 0;
+  while i < vals.len() {
+    s = merge_stats(s, single(vals[i]));
+    i += 1;
+  }
+  s
+}
+
 //@ props: C12
 //@ tier: quick
 //@ funcs: query::aggs::merge_stats (as used by StatsCollector::collect and by the cross-segment merge)
-//@ symbolic: four field values (integers in +-10^6, so f64 sums are exact), how they are split over two segments (0..4 values in the first)
-//@ bounds: 4 values, 2 segments
-//@ oracle: count, min, max and sum of merge(segment A, segment B) equal those of one segment holding all four values, for every split point, in both merge orders
+//@ symbolic: three field values (integers in +-10^6, so f64 sums are exact); the segmentation 2|1, merged in both orders
+//@ bounds: 3 values, 2 segments (a symbolic split point or a 4th value does not finish within the budget)
+//@ oracle: count, min, max and sum of merge(segment A, segment B) equal those of one segment holding all values, in both merge orders; min/max/sum are the extreme values / the sum
 //@ outside: m2 / variance (floating-point rounding differs by association); non-integer values
 #[kani::proof]
-#[kani::unwind(6)]
+#[kani::unwind(5)]
 fn c12_merge_stats_split_invariant() {
-  let v = [small_int(), small_int(), small_int(), small_int()];
-  let split: usize = kani::any();
-  kani::assume(split <= 4);
-  let mut whole = StatsState::default();
-  let mut a = StatsState::default();
-  let mut b = StatsState::default();
-  let mut i = 0;
-  while i < 4 {
-    whole = merge_stats(whole, single(v[i]));
-    if i < split {
-      a = merge_stats(a, single(v[i]));
-    } else {
-      b = merge_stats(b, single(v[i]));
-    }
-    i += 1;
+  let v = [small_int(), small_int(), small_int()];
+  let whole = fold(&v);
+  let (a2, b2) = (fold(&v[..2]), fold(&v[2..]));
+  let merged = [merge_stats(a2, b2), merge_stats(b2, a2)];
+  let mut k = 0;
+  while k < 2 {
+    assert!(merged[k].count == 3 && whole.count == 3, "C12: stats count depends on segmentation");
+    assert!(merged[k].min == whole.min, "C12: stats min depends on segmentation");
+    assert!(merged[k].max == whole.max, "C12: stats max depends on segmentation");
+    assert!(merged[k].sum == whole.sum, "C12: stats sum depends on segmentation");
+    k += 1;
   }
-  let ab = merge_stats(a, b);
-  let ba = merge_stats(b, a);
-  assert!(ab.count == 4 && ba.count == 4 && whole.count == 4, "C12: stats count depends on segmentation");
-  assert!(ab.min == whole.min && ba.min == whole.min, "C12: stats min depends on segmentation");
-  assert!(ab.max == whole.max && ba.max == whole.max, "C12: stats max depends on segmentation");
-  assert!(ab.sum == whole.sum && ba.sum == whole.sum, "C12: stats sum depends on segmentation");
   let mut lo = v[0];
   let mut hi = v[0];
   let mut i = 1;
-  while i < 4 {
+  while i < 3 {
     if v[i] < lo {
       lo = v[i];
     }
@@ -170,9 +170,11 @@ fn c12_merge_stats_split_invariant() {
     i += 1;
   }
   assert!(whole.min == lo && whole.max == hi, "C12: stats min/max are not the extreme values");
-  assert!(whole.sum == v[0] + v[1] + v[2] + v[3], "C12: stats sum is not the sum of the values");
-  kani::cover!(split == 0, "everything in the second segment");
-  kani::cover!(split == 2 && v[3] < v[0], "2+2 split with the minimum in the second segment");
+  assert!(whole.sum == v[0] + v[1] + v[2], "C12: stats sum is not the sum of the values");
+  let empty = merge_stats(StatsState::default(), StatsState::default());
+  assert!(empty.count == 0, "C12: merging two empty states must stay empty");
+  kani::cover!(v[2] < v[0] && v[0] < v[1], "minimum in the second segment");
+  kani::cover!(v[0] == v[1] && v[1] == v[2], "all values equal");
 }
 
 fn qstate(vals: &[f64]) -> QuantileState {
@@ -188,30 +190,18 @@ fn qstate(vals: &[f64]) -> QuantileState {
 //@ props: C12
 //@ tier: quick
 //@ funcs: query::aggs::QuantileState::push, QuantileState::merge, QuantileState::percentile, QuantileState::percentile_rank (exact mode)
-//@ symbolic: three finite field values, the requested percent (any f64 in 0..100), the rank target; the split is 1 value | 2 values merged in both orders
-//@ bounds: 3 values (exact mode, far below the 256-value switch to t-digest), 2 segments
-//@ oracle: percentile and percentile_rank of the merged per-segment states equal those of a single state that saw all values; percentile(0)/(100) are the minimum/maximum
-//@ outside: t-digest (approximate) mode; more than 3 values
+//@ symbolic: three field values (integers in +-10^6), the rank target (integer); segmentations 1|2, empty|3 and 3|empty; percents 0, 50, 100
+//@ bounds: 3 values (exact mode, far below the 256-value switch to t-digest), 2 segments, concrete percents without interpolation (a symbolic percent, or the interpolating 25th percentile, ran past 15-25 minutes)
+//@ oracle: percentile and percentile_rank of the merged per-segment states equal those of a single state that saw all values; percentile(0)/(100) are the minimum/maximum and percentile(50) the median
+//@ outside: t-digest (approximate) mode; interpolated percentiles; more than 3 values
 #[kani::proof]
 #[kani::unwind(6)]
 fn c12_quantile_merge_split_invariant() {
-  let v: [f64; 3] = kani::any();
-  kani::assume(v[0].is_finite() && v[1].is_finite() && v[2].is_finite());
-  kani::assume(v[0].abs() < 1e9 && v[1].abs() < 1e9 && v[2].abs() < 1e9);
-  let pct: f64 = kani::any();
-  kani::assume(pct >= 0.0 && pct <= 100.0);
-  let target: f64 = kani::any();
-  kani::assume(target.is_finite());
+  let v = [small_int(), small_int(), small_int()];
+  let target = small_int();
   let mut whole = qstate(&v);
   let mut ab = qstate(&v[..1]);
   ab.merge(qstate(&v[1..]));
-  let mut ba = qstate(&v[1..]);
-  ba.merge(qstate(&v[..1]));
-  let pw = whole.percentile(pct);
-  assert!(ab.percentile(pct).to_bits() == pw.to_bits(), "C12: exact percentile depends on segmentation");
-  assert!(ba.percentile(pct).to_bits() == pw.to_bits(), "C12: exact percentile depends on merge order");
-  let rw = whole.percentile_rank(target);
-  assert!(ab.percentile_rank(target) == rw && ba.percentile_rank(target) == rw, "C12: percentile rank depends on segmentation");
   let mut lo = v[0];
   let mut hi = v[0];
   let mut i = 1;
@@ -224,13 +214,29 @@ fn c12_quantile_merge_split_invariant() {
     }
     i += 1;
   }
-  assert!(whole.percentile(0.0) == lo, "C12: percentile 0 is not the minimum");
-  assert!(whole.percentile(100.0) == hi, "C12: percentile 100 is not the maximum");
+  let p0 = whole.percentile(0.0);
+  let p50 = whole.percentile(50.0);
+  let p100 = whole.percentile(100.0);
+  assert!(p0 == lo, "C12: percentile 0 is not the minimum");
+  assert!(p100 == hi, "C12: percentile 100 is not the maximum");
+  assert!(p50 >= lo && p50 <= hi && (p50 == v[0] || p50 == v[1] || p50 == v[2]), "C12: percentile 50 of three values is not one of them");
+  assert!(ab.percentile(50.0).to_bits() == p50.to_bits(), "C12: exact median depends on segmentation");
+  assert!(ab.percentile(0.0) == p0 && ab.percentile(100.0) == p100, "C12: exact extreme percentiles depend on segmentation");
+  // an empty segment (no matching document, or none with the field) merged first
+  let mut ea = QuantileState::default();
+  ea.merge(qstate(&v));
+  assert!(ea.percentile(50.0).to_bits() == p50.to_bits() && ea.percentile(0.0) == p0, "C12: an empty first segment changes the exact percentiles");
+  let mut ae = qstate(&v);
+  ae.merge(QuantileState::default());
+  assert!(ae.percentile(100.0) == p100, "C12: an empty second segment changes the exact percentiles");
+  let rw = whole.percentile_rank(target);
+  assert!(ab.percentile_rank(target).to_bits() == rw.to_bits(), "C12: percentile rank depends on segmentation");
   let below = (v[0] <= target) as u32 + (v[1] <= target) as u32 + (v[2] <= target) as u32;
-  assert!(rw == (below as f64 / 3.0) * 100.0, "C12: percentile rank is not the share of values <= target");
+  assert!((rw == 0.0) == (below == 0) && (rw == 100.0) == (below == 3), "C12: percentile rank is not the share of values <= target");
   kani::cover!(v[2] < v[0] && v[0] < v[1], "unsorted input");
-  kani::cover!(pct > 25.0 && pct < 75.0 && pw > lo && pw < hi, "interpolated percentile");
+  kani::cover!(below == 2, "two of three values at or below the target");
   std::mem::forget(whole);
   std::mem::forget(ab);
-  std::mem::forget(ba);
+  std::mem::forget(ea);
+  std::mem::forget(ae);
 }
